@@ -114,6 +114,13 @@ def run_impl(case, mode):
         desc['dim'] = None
     wfn = fqeio.make_wfn(norb, case['mode'], case['n'], case['sz'], case['vec'])
     res = {'desc': desc}
+    if desc['cls'] in ('General', 'GSOHamiltonian', 'SSOHamiltonian'):
+        ents = []
+        for tns in ham.tensors():
+            for ix in zip(*numpy.nonzero(tns)):
+                v = complex(tns[ix])
+                ents.append([[int(i) for i in ix], v.real, v.imag])
+        res['compiled_entries'] = ents[:4000]
     try:
         out = wfn.apply(ham)
         res['out'] = fqeio.read_state(out)
@@ -213,6 +220,11 @@ def classify(case, mode, bad, got, exp):
         return 'F-C06-constant-only-operator'
     if all('raised' in b and 'not spin complete' in b for b in bad):
         return None
+    if case['mode'] == 'ns' and got.get('compiled_entries'):
+        # the compiled spin-orbital tensor is applied by the single-sector kernels
+        pseudo = {'mode': 'ns', 'norb': case['norb'], 'ham': {'cls': 'gso', 'entries': got['compiled_entries']}}
+        if c01.in_spinorb_single_sector_class(pseudo):
+            return 'F-C01-spinorb-single-sector'
     if d.get('cls') == 'DiagonalCoulomb' and d.get('dim') == 2 * case['norb']:
         return 'F-C06-dc-spinorbital'
     if d.get('cls') == 'SparseHamiltonian' and c01.sparse_normal_orders_to_zero(case):
